@@ -45,6 +45,8 @@ type Rec struct {
 	samples map[uint64]json.RawMessage
 	first   []json.RawMessage
 	known   map[string]*knownHit
+	// harnessProblems: set-up failures of the harness itself (exit 2, never a violation)
+	harnessProblems []string
 }
 
 type knownHit struct {
@@ -202,6 +204,14 @@ func isKnown(v *Violation) (what string, ok bool) {
 // it, so that the search continues behind it.
 func (r *Rec) filter(v *Violation) *Violation {
 	if v == nil {
+		return nil
+	}
+	if strings.HasSuffix(v.Signature, ":harness") {
+		// the harness could not set the case up (temp file, storage): not a
+		// verdict about the code under test; the run ends as inconclusive
+		r.mu.Lock()
+		r.harnessProblems = append(r.harnessProblems, v.Detail)
+		r.mu.Unlock()
 		return nil
 	}
 	if what, ok := isKnown(v); ok {
@@ -410,6 +420,8 @@ func runProp[C any](t *testing.T, id string, check func(C, *Rec) *Violation, exh
 		rec.writeOut(start, found, replayed, exh, nil)
 		if found != nil {
 			t.Errorf("VIOLATION %s signature=%s: %s", id, found.Signature, found.Detail)
+		} else if len(rec.harnessProblems) > 0 {
+			t.Errorf("HARNESS PROBLEM in %s (%d cases could not be set up), first: %s", id, len(rec.harnessProblems), rec.harnessProblems[0])
 		}
 	}()
 
